@@ -53,7 +53,7 @@ package parser
 //@ func newParser
 //@ requires l != nil && lexer.linv(l) && lexer.lhtml(l)
 //@ ensures inv: fresh(result) && pinv(result) && result.Lexer == l && !result.inForBlock && len(result.errors) == 0
-//@ assigns l.ch, l.position, l.readPosition, l.curLine, l.inside, fresh
+//@ assigns l.ch, l.position, l.readPosition, l.curLine, l.tagLine, l.inside, fresh
 
 //@ func (p *parser) parseProgram
 //@ requires pinv(p)
